@@ -438,10 +438,12 @@ class MessageAccumulator:
         """
         return self._waiter_future
 
-    def _pop_batch(self, tp):
+    def _pop_batch(self, tp, *, expired=False):
         batch = self._batches[tp].popleft()
         not_retry = batch.retry_count == 0
-        if self._txn_manager is not None and not_retry:
+        # A batch that expired without ever being sent must not consume
+        # sequence numbers, or the next batch of the partition leaves a gap
+        if self._txn_manager is not None and not_retry and not expired:
             assert self._txn_manager.has_pid(), (
                 "We should have waited for it in sender routine"
             )
@@ -486,7 +488,7 @@ class MessageAccumulator:
                 if self._batches[tp][0].expired():
                     # batch is for partition is expired and still no leader,
                     # so set exception for batch and pop it
-                    batch = self._pop_batch(tp)
+                    batch = self._pop_batch(tp, expired=True)
                     if leader is None:
                         err = NotLeaderForPartitionError()
                     else:
